@@ -2,7 +2,8 @@
 """write seeded/MATRIX.md: which check catches which seeded change"""
 import json, glob, os
 rows = []
-for f in sorted(glob.glob('/verif/seeded/*/meta.json')):
+now = json.load(open('/verif/seeded/RECHECK.json')) if os.path.exists('/verif/seeded/RECHECK.json') else {}
+for f in sorted(glob.glob('/verif/seeded/*/meta.json'), key=lambda p: (p.split('/')[-2].split('-')[0], int(p.split('/')[-2].split('-')[1]))):
     m = json.load(open(f))
     name = f.split('/')[-2]
     tiers = m.get('checks', {})
@@ -11,18 +12,24 @@ for f in sorted(glob.glob('/verif/seeded/*/meta.json')):
     other = m.get('detected_by_other_properties') or {}
     need = (m.get('needs_to_manifest') or '').replace('\n', ' ')
     need = need[:160]
-    rows.append((name, 'yes' if m.get('valid_seed') else 'NO', hit[0] if hit else ('other: ' + ','.join(sorted(other)) if other else 'MISSED'), cls, need))
+    n_ = now.get(name, {})
+    cur = n_.get('status', '?') + ((' `%s`' % n_['class']) if n_.get('class') else '') + ((' by ' + n_['by']) if n_.get('by') else '')
+    rows.append((name, 'yes' if m.get('valid_seed') else 'NO', hit[0] if hit else ('other: ' + ','.join(sorted(other)) if other else 'MISSED'), cls, cur, need))
 out = ['# Seeded changes and the checks that catch them', '',
-       'Each change was written by a sub-agent that saw only the property text (wave 1: `-1`,`-2`; wave 2 "hard to find": `-3`,`-4`),',
+       'Each change was written by a sub-agent that saw only the property text (waves 1..5: `-1`,`-2` | `-3`,`-4` | `-5`,`-6` | `-7`,`-8` | `-9`,`-10`; each wave was told what the harness covered after the previous one),',
        'confirmed by tools/seedtest.py (suite 120 green with the change, demo fails with it and passes without it), and run against',
-       'the check of its property (quick tier, then thorough).', '',
-       '| seed | valid | caught by tier | first violation class | what it needs to manifest |', '|---|---|---|---|---|']
+       'the check of its property (quick tier, then thorough). Column "as delivered" = that first run (before any strengthening); column "now" = the current checks of that property', '(tools/recheck_seeds.py: quick, then thorough; superseded = a later fix: commit rewrote the code the change edits).', '',
+       '| seed | valid | as delivered: caught by tier | first violation class then | now | what it needs to manifest |', '|---|---|---|---|---|---|']
 for r in rows:
-    out.append('| %s | %s | %s | `%s` | %s |' % r)
+    out.append('| %s | %s | %s | `%s` | %s | %s |' % r)
 n = len(rows)
 q = sum(1 for r in rows if r[2] == 'quick')
 t = sum(1 for r in rows if r[2] == 'thorough')
 o = sum(1 for r in rows if r[2].startswith('other'))
-out += ['', '%d seeded changes: %d caught by the quick tier of their property, %d only by the thorough tier, %d only by the check of another property, %d missed.' % (n, q, t, o, n - q - t - o)]
+out += ['', 'As delivered: %d seeded changes: %d caught by the quick tier of their property, %d only by the thorough tier, %d only by the check of another property, %d missed.' % (n, q, t, o, n - q - t - o)]
+cnt = {}
+for v in now.values():
+    cnt[v['status']] = cnt.get(v['status'], 0) + 1
+out += ['', 'Now (own property check only): ' + ', '.join('%d %s' % (v, k) for k, v in sorted(cnt.items())) + '.']
 open('/verif/seeded/MATRIX.md', 'w').write('\n'.join(out) + '\n')
 print(out[-1])
